@@ -1,11 +1,12 @@
 //! C30: remote manifest references through XMP.  case: {"op": ...}
-//!  rt      {xmp|null, key|null, value}  add then extract on XMP strings (key null = add_provenance/extract_provenance;
-//!                                       xmp null = MIN_XMP)            -> {r:"ok", out, got|null} | {r:"err", kind}
+//!  rt      {xmp|null, key|null, value, others:[key..]}  add then extract on XMP strings (key null = add_provenance/
+//!                                       extract_provenance; xmp null = MIN_XMP); others = keys read before and after
+//!                                       -> {r:"ok", out, got|null, others_before, others_after} | {r:"err", kind}
 //!  extract {xmp, key|null}                                             -> {r:"ok", got|null}
 //!  handler {format, fixture, url}       embed_reference_to_stream + XmpInfo::from_source
 //!                                       -> {r:"ok", got|null, xmp_before|null, xmp_after|null} | {r:"err", kind}
 //!  api     {format, fixture, url}       Builder::set_remote_url + set_no_embed + sign, then Reader
-//!                                       -> {r:"ok", reader:"RemoteManifestUrl"|..., got|null}
+//!                                       -> {r:"ok", reader:"RemoteManifestUrl"|..., got|null, embedded: Url::parse(url).to_string()}
 use std::io::Cursor;
 
 use c2pa::{verif_hooks::c30 as hk, Builder, Error, Reader};
@@ -37,7 +38,10 @@ pub fn run(case: &Value) -> Value {
                         None => hk::xmp_extract_provenance(&out),
                         Some(k) => hk::verif_extract_xmp_key(&out, k),
                     };
-                    json!({"r": "ok", "out": out, "got": opt(got)})
+                    let others: Vec<&str> = case["others"].as_array().map(|a| a.iter().filter_map(|k| k.as_str()).collect()).unwrap_or_default();
+                    let ob: Vec<Value> = others.iter().map(|k| opt(hk::verif_extract_xmp_key(xmp, k))).collect();
+                    let oa: Vec<Value> = others.iter().map(|k| opt(hk::verif_extract_xmp_key(&out, k))).collect();
+                    json!({"r": "ok", "out": out, "got": opt(got), "others_before": ob, "others_after": oa})
                 }
             }
         }
@@ -64,6 +68,7 @@ pub fn run(case: &Value) -> Value {
             let format = case["format"].as_str().unwrap_or("jpg");
             let src = e2e::fixture(case["fixture"].as_str().unwrap_or("IMG_0003.jpg"));
             let url = case["url"].as_str().unwrap_or("");
+            let embedded = opt(hk::normalized_remote_url(url));
             let signer = e2e::signer("ed25519");
             let ctx = e2e::context(Some(r#"{"verify": {"remote_manifest_fetch": false}}"#));
             let mut builder = match Builder::from_context(ctx).with_definition(e2e::minimal_manifest("c30").as_str()) {
@@ -75,14 +80,14 @@ pub fn run(case: &Value) -> Value {
             let mut input = Cursor::new(src);
             let mut out = Cursor::new(Vec::new());
             if let Err(e) = builder.sign(signer.as_ref(), format, &mut input, &mut out) {
-                return json!({"r": "err", "stage": "sign", "kind": err_class(&e), "detail": format!("{}", e)});
+                return json!({"r": "err", "stage": "sign", "kind": err_class(&e), "detail": format!("{}", e), "embedded": embedded});
             }
             let signed = out.into_inner();
             let rctx = e2e::context(Some(r#"{"verify": {"remote_manifest_fetch": false}}"#));
             match Reader::from_context(rctx).with_stream(format, Cursor::new(signed)) {
-                Ok(_) => json!({"r": "ok", "reader": "Ok", "got": Value::Null}),
-                Err(Error::RemoteManifestUrl(u)) => json!({"r": "ok", "reader": "RemoteManifestUrl", "got": u}),
-                Err(e) => json!({"r": "ok", "reader": err_class(&e), "got": Value::Null}),
+                Ok(_) => json!({"r": "ok", "reader": "Ok", "got": Value::Null, "embedded": embedded}),
+                Err(Error::RemoteManifestUrl(u)) => json!({"r": "ok", "reader": "RemoteManifestUrl", "got": u, "embedded": embedded}),
+                Err(e) => json!({"r": "ok", "reader": err_class(&e), "got": Value::Null, "embedded": embedded}),
             }
         }
         _ => json!({"r": "bad-op"}),
